@@ -71,6 +71,9 @@ type Tree struct {
 	mu     sync.Mutex
 	Calls  []Call
 	FailAt int // k > 0: the k-th callback fails
+	// Variant: another data tree over the same schema - every generic value differs
+	// (used to give a machine a different history between two runs on the normal tree)
+	Variant bool
 }
 
 type EnvError struct{ K int }
@@ -108,7 +111,9 @@ func lits(ss ...string) []xpath.Datum {
 }
 
 // TreeValue mirrors TreeVal of XPathAst.tla.
-func TreeValue(r Req) xpath.Datum {
+func TreeValue(r Req) xpath.Datum { return treeValue(r, false) }
+
+func treeValue(r Req, variant bool) xpath.Datum {
 	switch r.LastName() {
 	case "vabs":
 		return xpath.NewNodesetDatum([]xutils.XpathNode{})
@@ -125,6 +130,9 @@ func TreeValue(r Req) xpath.Datum {
 	case "vtxt":
 		return xpath.NewLiteralDatum(ToReal("a~b"))
 	}
+	if variant {
+		return xpath.NewLiteralDatum(ToReal("W(" + r.String() + ")"))
+	}
 	return xpath.NewLiteralDatum(ToReal("V(" + r.String() + ")"))
 }
 
@@ -132,7 +140,7 @@ func (e *Entry) GetValue() (xpath.Datum, error) {
 	if err := e.T.record("get", e.Req); err != nil {
 		return nil, err
 	}
-	return TreeValue(e.Req), nil
+	return treeValue(e.Req, e.T.Variant), nil
 }
 
 func (e *Entry) Navigate(p *sdcpb.Path) (xpath.Entry, error) {
